@@ -244,8 +244,24 @@ fn cmd_check(args: &[String]) -> i32 {
     let t0 = Instant::now();
     let meta = checks::meta(&id);
     let n = arg_val(args, "--runs").and_then(|s| s.parse().ok()).unwrap_or_else(|| checks::n_runs(&id, &tier));
-    let reqs: Vec<Value> = (0..n).map(|i| json!({"check": id, "tier": tier, "base": base, "idx": i})).collect();
-    let mut results = run_requests(reqs, jobs, timeout);
+    // runs are executed in chunks so that memory stays bounded in the thorough tiers; only results that
+    // need a second look (violations, timeouts, aborts, harness errors) are kept, the rest is aggregated
+    let mut agg = Agg::default();
+    let mut results: Vec<RunResult> = vec![];
+    let chunk = 50_000u64;
+    let mut start = 0u64;
+    while start < n {
+        let end = (start + chunk).min(n);
+        let reqs: Vec<Value> = (start..end).map(|i| json!({"check": id, "tier": tier, "base": base, "idx": i})).collect();
+        for r in run_requests(reqs, jobs, timeout) {
+            if r.outcome == "ok" && r.violations.is_empty() || r.outcome == "invalid-world" {
+                agg.add(&r);
+            } else {
+                results.push(r);
+            }
+        }
+        start = end;
+    }
 
     // a timeout / abort is re-run once in isolation (nothing else running) before it is believed
     let mut retried = 0;
@@ -267,7 +283,21 @@ fn cmd_check(args: &[String]) -> i32 {
     }
 
     let findings = load_findings();
-    let mut agg = Agg::default();
+    // a recorded finding carries a minimised replay that must still reproduce; if it does not, say so
+    for f in findings.findings.iter().filter(|f| f.status == "open" && f.property == id && !f.replay.is_empty()) {
+        let path = format!("{}/{}", world::verif_root(), f.replay);
+        if let Ok(text) = std::fs::read_to_string(&path) {
+            if let Ok(file) = serde_json::from_str::<Value>(&text) {
+                let spec = file["spec"].clone();
+                let class = file["class"].as_str().unwrap_or("").to_string();
+                let rr = run_requests(vec![json!({"check": id, "spec": spec, "idx": 0})], 1, timeout * 2).remove(0);
+                let hung = class == "did-not-terminate" && (rr.outcome == "timeout" || rr.outcome.starts_with("abort"));
+                if !hung && !rr.violations.iter().any(|v| v.class == class) {
+                    println!("STALE-FINDING: property={} {} no longer reproduces from {} (the entry can be retired)", id, f.id, f.replay);
+                }
+            }
+        }
+    }
     let mut harness_errors = vec![];
     let mut known: BTreeMap<String, u64> = BTreeMap::new();
     let mut fresh_violations: Vec<(u64, u64, Violation, Value)> = vec![];
